@@ -328,15 +328,22 @@ def handle_violations(prop, binary, build_desc, engine, mode, batch, vseed, env_
     return unlisted, known
 
 
-def confirm_replay(binary, engine, path, want_class, env=None):
-    p = subprocess.run([binary, engine, "exec", "--trace", path], stdout=subprocess.PIPE, stderr=subprocess.PIPE, text=True, env=env)
-    try:
-        d = json.loads(p.stdout.strip().splitlines()[-1])
-    except Exception:
-        return False, "unparsable output: %s %s" % (p.stdout[-300:], p.stderr[-300:])
-    v = d.get("violation")
-    if p.returncode == 1 and v and v.get("class") == want_class:
-        return True, v
+def confirm_replay(binary, engine, path, want_class, env=None, attempts=5):
+    """Replays in a fresh process. One attempt suffices when every source of nondeterminism is
+    behind a seam; further attempts only matter when the code under test itself has grown an
+    uncontrolled one (real threads of its own, for instance)."""
+    v = None
+    for k in range(attempts):
+        p = subprocess.run([binary, engine, "exec", "--trace", path], stdout=subprocess.PIPE, stderr=subprocess.PIPE, text=True, env=env)
+        try:
+            d = json.loads(p.stdout.strip().splitlines()[-1])
+        except Exception:
+            return False, "unparsable output: %s %s" % (p.stdout[-300:], p.stderr[-300:])
+        v = d.get("violation")
+        if p.returncode == 1 and v and v.get("class") == want_class:
+            if k > 0:
+                log("  (replay reproduced on attempt %d of %d: the code under test is not deterministic under a fixed trace)" % (k + 1, attempts))
+            return True, v
     return False, v
 
 
@@ -391,13 +398,15 @@ def check_c20(tier):
                ("small+debug-assertions", n_small // 5, dbg_binary, dbg_desc), ("wide+debug-assertions", n_wide // 5, dbg_binary, dbg_desc)]
     for label, n, binary, build_desc in batches:
         mode = label.split("+")[0]
-        b = run_batch(binary, "dn-sim", mode, tier, n, vseed)
+        shim_env = {"LD_PRELOAD": build_shim(), "DETSYS_RAND_SEED": str(vseed)}
+        build_desc = dict(build_desc, shim=True)
+        b = run_batch(binary, "dn-sim", mode, tier, n, vseed, env_extra=shim_env)
         evaluations += len(b.runs)
         dn += b.distinct_nontrivial()
         covs.append((label, b))
         samples += [{"mode": label, "trace": s} for s in b.samples[:1]]
         if b.violations:
-            u, _k = handle_violations("C20", binary, build_desc, "dn-sim", mode, b, vseed)
+            u, _k = handle_violations("C20", binary, build_desc, "dn-sim", mode, b, vseed, env_extra=shim_env)
             total_viol += u
     small = covs[0][1]
     le4 = len(small.cover.get("dn_small_hist_le4", ()))
@@ -438,12 +447,15 @@ def run_plan(prop, plan, tier, vseed):
     for item in plan:
         binary = item.get("binary") or build_simnode(item["features"], hook=True, dbg=bool(item.get("dbg")))
         env = dict(item.get("env") or {}) or None
-        if item.get("shim"):
+        if item["engine"] != "cli-sim" and env is None:
+            # every simulated run sits on the system-call seam: the getrandom stream is restarted
+            # from the run seed in each run's child, so that std's per-thread hash-map keys (the one
+            # source of randomness inside std collections) are a function of the run seed as well
             env = {"LD_PRELOAD": build_shim(), "DETSYS_RAND_SEED": str(vseed)}
         b = run_batch(binary, item["engine"], item["mode"], tier, item["runs"], vseed, env_extra=env)
         results.append((item, b))
         if b.violations:
-            desc = {"features": item["features"], "hook": True, "shim": bool(item.get("shim")), "dbg": bool(item.get("dbg"))}
+            desc = {"features": item["features"], "hook": True, "shim": item["engine"] != "cli-sim", "dbg": bool(item.get("dbg"))}
             if item.get("backend"):
                 desc["cli_backend"] = item["backend"]
             u, _k = handle_violations(prop, binary, desc, item["engine"], item["mode"], b, vseed, env_extra=env)
@@ -473,6 +485,8 @@ def check_c01(tier):
         {"label": "aws_lc_rs/enum", "features": A, "engine": "sign-sim", "mode": "enum", "runs": 320 if q else 8000},
         {"label": "no-crypto/faults", "features": N, "engine": "sign-sim", "mode": "faults", "runs": 1600 if q else 30000},
         {"label": "no-crypto/enum-remote", "features": N, "engine": "sign-sim", "mode": "enum-remote", "runs": 320 if q else 8000},
+        {"label": "ring+zeroize/plain", "features": R + ["zeroize"], "engine": "sign-sim", "mode": "plain", "runs": 640 if q else 10000},
+        {"label": "aws_lc_rs+zeroize/faults", "features": A + ["zeroize"], "engine": "sign-sim", "mode": "faults", "runs": 480 if q else 8000},
         {"label": "ring+debug-assertions/plain", "features": R, "engine": "sign-sim", "mode": "plain", "runs": 480 if q else 8000, "dbg": True},
         {"label": "ring+debug-assertions/faults", "features": R, "engine": "sign-sim", "mode": "faults", "runs": 480 if q else 8000, "dbg": True},
     ]
@@ -652,6 +666,7 @@ def check_c15(tier):
         {"label": "L2 ring/shuttle", "features": R + ["shuttle"], "engine": "purity-shuttle", "mode": "default", "runs": 480 if q else 8000},
         {"label": "L2 no-crypto/shuttle", "features": N + ["shuttle"], "engine": "purity-shuttle", "mode": "default", "runs": 320 if q else 6000},
         {"label": "L1 ring+debug-assertions/histories", "features": R, "engine": "purity-hist", "mode": "default", "runs": 480 if q else 8000, "dbg": True},
+        {"label": "L1 aws_lc_rs+zeroize/histories", "features": A + ["zeroize"], "engine": "purity-hist", "mode": "default", "runs": 320 if q else 6000},
     ]
     results, unlisted = run_plan("C15", plan, tier, vseed)
     rep_info, u = check_replicas("C15", R, tier, 480 if q else 6000, vseed)
@@ -928,12 +943,13 @@ def compare_nodes(prop, nodes, engine, mode, tier, n, vseed):
     unlisted = 0
     for feats in nodes:
         binary = build_simnode(feats, hook=True)
-        b = run_batch(binary, engine, mode, tier, n, vseed)
+        shim_env = {"LD_PRELOAD": build_shim(), "DETSYS_RAND_SEED": str(vseed)}
+        b = run_batch(binary, engine, mode, tier, n, vseed, env_extra=shim_env)
         batches.append((feats, b))
         info.append({"node": feat_tag(feats), "mode": mode, "runs": len(b.runs), "event_log_digest": b.log_digest(), "wall_s": round(b.wall, 2)})
         if b.violations:
-            desc = {"features": feats, "hook": True}
-            u, _k = handle_violations(prop, binary, desc, engine, mode, b, vseed)
+            desc = {"features": feats, "hook": True, "shim": True}
+            u, _k = handle_violations(prop, binary, desc, engine, mode, b, vseed, env_extra=shim_env)
             unlisted += u
         if base is None:
             base = (feats, b)
@@ -1093,6 +1109,8 @@ def check_c16(tier):
             extra = (["pem"] if pem else []) + (["x509-parser"] if x509 else [])
             zs = [[]] if q else [[], ["zeroize"]]
             three = [([b] if b else []) + extra + z for z in zs for b in ("ring", "aws_lc_rs", None)]
+            if q:
+                three.append(["ring"] + extra + ["zeroize"])
             two = [[b] + extra + z for z in zs for b in ("ring", "aws_lc_rs")]
             n3, n2 = (1600, 1200) if q else (12000, 8000)
             info, batches, u = compare_nodes("C16", three, "replica-sim", "three:%d:%d" % (pem, x509), tier, n3, vseed)
@@ -1217,6 +1235,8 @@ def setup_build():
     for feats, hook in ((R, True), (A, True), (N, True), (R + ["shuttle"], True), (N + ["shuttle"], True), (R, False)):
         build_simnode(feats, hook=hook, quiet=False)
     build_simnode(R, hook=True, quiet=False, dbg=True)
+    build_simnode(R + ["zeroize"], hook=True, quiet=False)
+    build_simnode(A + ["zeroize"], hook=True, quiet=False)
     build_tool("clisim")
     for backend in ("ring", "aws_lc_rs"):
         cli, err = build_cli(backend)
